@@ -75,11 +75,17 @@ def mutants_of(src, fn, qual):
     out = []
     b = src.bytes
 
+    sig_nodes = set()
+    for dflt in list(fn.args.defaults) + [d for d in fn.args.kw_defaults if d is not None]:
+        for sub in ast.walk(dflt):
+            sig_nodes.add(id(sub))
+
     def add(a, e, new, op, node):
         old = b[a:e].decode()
         if old == new:
             return
-        out.append({"file": src.path, "func": qual, "line": node.lineno, "a": a, "e": e, "old": old, "new": new, "op": op})
+        out.append({"file": src.path, "func": qual, "line": node.lineno, "a": a, "e": e, "old": old, "new": new, "op": op,
+                    "sig": id(node) in sig_nodes})
 
     # constants inside error messages / raise statements / warnings only change diagnostics: not mutated
     skip = set()
@@ -186,10 +192,12 @@ def ensure_lane(lane):
     return wt
 
 
-def run(pid, lane, sample, rseed, scale, jobs, only_ops=None):
+def run(pid, lane, sample, rseed, scale, jobs, only_ops=None, sig_only=False):
     os.makedirs(OUT, exist_ok=True)
     wt = ensure_lane(lane)
     muts = generate(pid)
+    if sig_only:
+        muts = [m for m in muts if m.get("sig")]
     if only_ops:
         muts = [m for m in muts if m["op"] in only_ops]
     done = set()
@@ -303,6 +311,7 @@ if __name__ == "__main__":
     ap.add_argument("--scale", type=float, default=0.3)
     ap.add_argument("--jobs", type=int, default=3)
     ap.add_argument("--ops", default="")
+    ap.add_argument("--sig-only", action="store_true", help="only mutate default values in the signatures")
     a = ap.parse_args()
     if a.cmd == "gen":
         for m in generate(a.pid):
@@ -316,6 +325,6 @@ if __name__ == "__main__":
     elif a.cmd == "rerun":
         rerun(a.pid, a.lane, a.scale, a.jobs)
     elif a.cmd == "run":
-        run(a.pid, a.lane, a.sample, a.rseed, a.scale, a.jobs, set(a.ops.split(",")) if a.ops else None)
+        run(a.pid, a.lane, a.sample, a.rseed, a.scale, a.jobs, set(a.ops.split(",")) if a.ops else None, a.sig_only)
     else:
         survivors(a.pid)
